@@ -144,6 +144,8 @@ class MultiMatcher(mcore.Matcher):
         for mr in self.matchers:
             mr.reset()
         self.current = 0
+        # As in __init__, start at the first sub-matcher that has postings
+        self._next_matcher()
 
     def children(self):
         return [self.matchers[self.current]]
